@@ -1,4 +1,70 @@
-From HP Require Import Base.Prelude Base.Path Tar.Unpack.
-Example C13_smoke : resolve (S "./a//b/") = S "a/b" /\ resolve (S "/../x") = S "x" /\ resolve (S "../x") = S "../x".
-Proof. vm_compute. auto. Qed.
-Print Assumptions C13_smoke.
+(* C13 -- Tar entries become visible atomically and every Open eventually returns.
+   Model: Tar/PubSub.v.  [pstep]/[released] model tar/pubsub.go (compared with the real pubsub through
+   the verif shim on every run); [gstep] is the transition system of ReaderFS.Open for one regular
+   entry against the writer, the reader's end and cancellation, one atomic step per transition, so a
+   statement over [greach] covers EVERY interleaving.  The Go scheduler's fairness, the tar parser and
+   the destination FS are not modelled; truncated/corrupt streams, failing destinations and 1..8 real
+   openers are exercised end to end by the harness. *)
+From HP Require Import Base.Prelude Tar.PubSub Tar.PubSubProofs.
+Open Scope nat_scope.
+
+(* pubsub: a waiter is released by an Emit of its key and by cancellation, stays released, and is
+   released by nothing else. *)
+Theorem C13_wait_released_by_emit : forall s k, released (pstep s (PEmit k)) k = true.
+Proof. exact released_emit. Qed.
+Print Assumptions C13_wait_released_by_emit.
+
+Theorem C13_wait_released_by_cancel : forall s k, released (pstep s PCancel) k = true.
+Proof. exact released_cancel. Qed.
+Print Assumptions C13_wait_released_by_cancel.
+
+Theorem C13_released_stays_released : forall s a k, released s k = true -> released (pstep s a) k = true.
+Proof. exact released_mono. Qed.
+Print Assumptions C13_released_stays_released.
+
+Theorem C13_wait_released_by_nothing_else : forall s a k,
+  released s k = false -> released (pstep s a) k = true ->
+  a = PCancel \/ exists k', a = PEmit k' /\ str_eqb k k' = true.
+Proof. exact released_only_by. Qed.
+Print Assumptions C13_wait_released_by_nothing_else.
+
+(* Atomic visibility, over all interleavings: an Open that succeeds on a regular entry shows the
+   entry's complete bytes, never a prefix -- also when the caller cancels while the entry is being
+   written, when the writer fails, when the reader ends with an error. *)
+Theorem C13_open_success_is_complete : forall total s k,
+  greach total s -> g_op s = OResult (Some k) -> k = total.
+Proof. exact open_success_is_complete. Qed.
+Print Assumptions C13_open_success_is_complete.
+
+(* Fail closed: with the error stored and the entry never announced, the opener can only fail. *)
+Theorem C13_fail_closed : forall total s s',
+  greach total s -> g_emitted s = false -> g_op s = OCheckErr -> g_err s = true -> gstep s s' ->
+  g_op s' = OCheckErr \/ g_op s' = OResult None.
+Proof. exact fail_closed. Qed.
+Print Assumptions C13_fail_closed.
+
+(* Liveness in its safety form: after cancellation (which the reader performs right after it is done,
+   and the caller may perform at any time) no opener is blocked. *)
+Theorem C13_no_stuck_opener : forall s, g_cancel s = true -> (forall r, g_op s <> OResult r) ->
+  exists s', gstep s s' /\ g_op s' <> g_op s.
+Proof. exact no_stuck_opener. Qed.
+Print Assumptions C13_no_stuck_opener.
+
+Theorem C13_reader_done_enables_cancel : forall s, g_rdone s = true -> exists s', gstep s s' /\ g_cancel s' = true.
+Proof. exact reader_done_enables_cancel. Qed.
+Print Assumptions C13_reader_done_enables_cancel.
+
+(* Non-vacuity: a run in which the caller cancels while the entry is half written ends in an error. *)
+Example C13_cancel_midway_fails :
+  exists s, greach 2 s /\ g_written s = 1 /\ g_op s = OResult None.
+Proof.
+  eexists. split.
+  - eapply GR_step; [eapply GR_step; [eapply GR_step; [eapply GR_step; [eapply GR_step; [apply GR_init|]|]|]|]|].
+    + apply G_write; simpl; auto.
+    + apply G_cancel.
+    + apply G_wait; simpl; auto.
+    + apply G_check_vis; reflexivity.
+    + apply G_check_done; reflexivity.
+  - simpl. auto.
+Qed.
+Print Assumptions C13_cancel_midway_fails.
